@@ -765,13 +765,25 @@ impl<S: BitmapSlice + Send + Sync> FileSystem for PassthroughFs<S> {
                     None
                 };
 
-                let (_uid, _gid) = set_creds(ctx.uid, ctx.gid)?;
-                let file = self.open_inode(entry.inode, args.flags as i32)?;
-                if args.flags & (libc::O_TRUNC as u32) != 0 {
-                    // The attributes were fetched before the open truncated the file.
-                    entry.attr = stat_fd(&file, None)?;
+                let res = set_creds(ctx.uid, ctx.gid)
+                    .and_then(|_creds| self.open_inode(entry.inode, args.flags as i32))
+                    .and_then(|file| {
+                        if args.flags & (libc::O_TRUNC as u32) != 0 {
+                            // The attributes were fetched before the open truncated the file.
+                            entry.attr = stat_fd(&file, None)?;
+                        }
+                        Ok(file)
+                    });
+                match res {
+                    Ok(file) => file,
+                    Err(e) => {
+                        // The entry is not handed to the client, so the reference taken by
+                        // do_lookup() would never be forgotten.
+                        let mut inodes = self.inode_map.get_map_mut();
+                        self.forget_one(&mut inodes, entry.inode, 1);
+                        return Err(e);
+                    }
                 }
-                file
             }
         };
 
